@@ -7,5 +7,5 @@ Require Import ExtrOcamlBasic.
 From Quiver Require Import Types Sem typed.Typed typed.Core.
 Extraction Language OCaml.
 Extraction "extracted/typed_model.ml"
-  infer eval memb
+  infer infer_prog eval memb
   mk_tprog erase judge wt_valueb enum_inputs generic_fun vdepth sig_table open_reg var_freeb closedb inhabb.
